@@ -293,6 +293,7 @@ def main(tier):
     run.map(check_case, gen_cases(tier), chunk=32, family="rails")
     for c in ("rail-feeds-mux", "rail-with-warning", "no-rails", "rerailed", "tp-warning-at-60", "kind-changed"):
         run.require(c in run.classes, "class %s never observed" % c)
+    run.require("refused-call-accepted" not in run.classes, "a call of the refused-edits menu was accepted: the rej family is vacuous")
     return run.finish(
         rule="E1-rail: every tree n<=3 (4 thorough) over {RLoss, Converter, LinReg, PSwitch, 1-input PMux, a converter and a load that always warn, PLoad, loss-RLoad} x every "
              "subset of non-load components (incl. the source) owning a rail x children attached by name / by rail x (no phases | one phase-configured component); plus every "
